@@ -48,6 +48,8 @@ pub struct World {
     pub slave_only: bool,
     pub own_p1: u8,
     pub own_class: u8,
+    pub init_line: String,        // the INIT line of the scenario (what the host configured)
+    pub port_lines: Vec<String>,  // the PORT lines, in port order
 }
 
 pub const CLOCKS: [[u8; 8]; 6] = [
@@ -553,7 +555,8 @@ impl<'a> Gen<'a> {
             ((1u128 << 64) - 20_000_000_000) * F32,
             ((1u128 << 48) - 200_000) * SEC,
         ]);
-        self.w = World { own_clock: own, own_sdo: sdo, own_domain: domain, masters, ports: vec![], parent: String::new(), now: start, path_trace, slave_only, own_p1: p1, own_class: class };
+        self.w = World { own_clock: own, own_sdo: sdo, own_domain: domain, masters, ports: vec![], parent: String::new(), now: start, path_trace, slave_only, own_p1: p1, own_class: class, init_line: String::new(), port_lines: vec![] };
+        self.w.init_line = line.clone();
         self.emit(line);
         if bmca_first {
             // a BMCA run before any port exists
@@ -596,6 +599,7 @@ impl<'a> Gen<'a> {
                 l => Some(l.split(',').map(|x| x.to_string()).collect()),
             };
             self.w.ports.push(PortView { state: "Listening".into(), p2p, master_only, acc: accv, ..Default::default() });
+            self.w.port_lines.push(line.clone());
             self.emit(line);
         }
     }
@@ -1213,11 +1217,84 @@ impl<'a> Gen<'a> {
         }
     }
 
+
+    /// C19, first clause: `DUMP` prints every field of the data sets the daemon exposes for observation (the getters
+    /// `main.rs` builds its `ObservableInstanceState` from). The model prints the same from its own state; the oracle
+    /// here compares what the host itself configured (INIT / PORT lines) and the filter estimates of the Slave port.
+    pub fn dump_op(&mut self) {
+        if self.dead {
+            return;
+        }
+        let obs = self.ex.exec("DUMP");
+        self.out.op("DUMP", &obs);
+        self.out.count("op.DUMP");
+        if obs == "R panic" {
+            self.dead = true;
+            self.out.oracle("C03", "panic in DUMP", "DUMP -> an observability getter panicked");
+            return;
+        }
+        let seg = |name: &str| -> Vec<String> {
+            obs.split(" | ").find(|p| p.starts_with(name)).map(|p| p.split_whitespace().skip(1).map(|x| x.to_string()).collect()).unwrap_or_default()
+        };
+        let init: Vec<&str> = self.w.init_line.split_whitespace().collect();
+        let df = seg("OBSV DF");
+        // OBSV DF <clock> <nports> <class> <acc> <var> <p1> <p2> <domain> <slave_only> <sdo>   (first token after OBSV is DF)
+        let df: Vec<String> = df.into_iter().skip(1).collect();
+        if init.len() == 17 && df.len() == 10 {
+            let want = [init[1], init[2], init[3], init[4], init[5]]; // clock p1 p2 domain sdo
+            let got = [df[0].as_str(), df[5].as_str(), df[6].as_str(), df[7].as_str(), df[9].as_str()];
+            if want != got {
+                self.out.oracle("C19", "observed-default-ds-differs-from-configuration", &format!("DUMP -> default data set shows (clock, p1, p2, domain, sdoId) = {got:?}, the instance was configured with {want:?}"));
+            }
+            if df[1] != self.w.ports.len().to_string() {
+                self.out.oracle("C19", "observed-default-ds-differs-from-configuration", &format!("DUMP -> numberPorts {} with {} ports", df[1], self.w.ports.len()));
+            }
+        } else {
+            self.out.oracle("C19", "observable-dump-malformed", &format!("DUMP -> {obs}"));
+        }
+        let cu = seg("CU");
+        let slave = self.w.ports.iter().position(|p| p.state == "Slave").map(|i| i + 1);
+        let (wo, wd) = match slave {
+            Some(k) => (super::inst::est_offset_bits(k), super::inst::est_delay_bits(k)),
+            None => (0, 0),
+        };
+        if cu.len() != 3 || cu[1] != wo.to_string() || cu[2] != wd.to_string() {
+            self.out.oracle("C19", "observed-current-ds-not-the-slave-ports-estimate", &format!("DUMP -> current data set {cu:?}; Slave port {slave:?}, whose filter reports offset {wo} and mean delay {wd}"));
+        }
+        for (i, pl) in self.w.port_lines.clone().iter().enumerate() {
+            let w: Vec<&str> = pl.split_whitespace().collect();
+            let got = seg(&format!("P{} ", i + 1));
+            if w.len() != 10 || got.len() != 12 {
+                self.out.oracle("C19", "observable-dump-malformed", &format!("DUMP -> port {} missing in {obs}", i + 1));
+                continue;
+            }
+            let asym: i128 = w[8].parse().unwrap_or(0);
+            let tiv = (asym >> 16).clamp(i64::MIN as i128, i64::MAX as i128);
+            let mech = if w[2] == "1" { "P2P" } else { "E2E" };
+            // P<k> <pid> <state> <annlog> <timeout> <synclog> <mech> <delaylog> <mld> <ver> <minor> <asym> <master_only>
+            let want = [w[4].to_string(), w[5].to_string(), w[6].to_string(), mech.to_string(), w[3].to_string(), "2".to_string(), w[9].to_string(), tiv.to_string(), w[7].to_string()];
+            let gotv = [got[2].clone(), got[3].clone(), got[4].clone(), got[5].clone(), got[6].clone(), got[8].clone(), got[9].clone(), got[10].clone(), got[11].clone()];
+            if want != gotv {
+                self.out.oracle("C19", "observed-port-ds-differs-from-configuration", &format!("DUMP -> port {} shows (announce, timeout, sync, mechanism, delay interval, version, minor, asymmetry, master-only) = {gotv:?}, configured {want:?}", i + 1));
+            }
+            if got[1] != self.w.ports[i].state {
+                self.out.oracle("C19", "observed-port-state-differs", &format!("DUMP -> port {} shown as {}, it is {}", i + 1, got[1], self.w.ports[i].state));
+            }
+            let pid = format!("{}:{}", init.get(1).copied().unwrap_or(""), i + 1);
+            if got[0] != pid {
+                self.out.oracle("C19", "observed-port-ds-differs-from-configuration", &format!("DUMP -> port {} has identity {}, expected {pid}", i + 1, got[0]));
+            }
+        }
+    }
+
     /// one random step of the mixed alphabet, biased by what the ports are doing
     pub fn step(&mut self, rng: &Prng) {
         let any_slave = self.w.ports.iter().any(|p| p.state == "Slave");
         let any_p2p = self.w.ports.iter().any(|p| p.p2p);
         let r = rng.below(100);
+        if rng.chance(1, 25) {
+            self.dump_op();
+        }
         if any_slave && r < 30 {
             return self.exchange(rng);
         }
@@ -1255,7 +1332,7 @@ pub fn new_gen(out: &mut Out) -> Gen<'_> {
         meas: MeasOracle::default(),
         ex: InstExec::new(),
         out,
-        w: World { own_clock: [0; 8], own_sdo: 0, own_domain: 0, masters: vec![], ports: vec![], parent: String::new(), now: 0, path_trace: false, slave_only: false, own_p1: 0, own_class: 0 },
+        w: World { own_clock: [0; 8], own_sdo: 0, own_domain: 0, masters: vec![], ports: vec![], parent: String::new(), now: 0, path_trace: false, slave_only: false, own_p1: 0, own_class: 0, init_line: String::new(), port_lines: vec![] },
         ops_in_scenario: 0,
         dead: false,
         on_obs: None,
@@ -1940,7 +2017,7 @@ pub fn generate(out: &mut Out, rng: &Prng, thorough: bool) {
         meas: MeasOracle::default(),
         ex: InstExec::new(),
         out,
-        w: World { own_clock: [0; 8], own_sdo: 0, own_domain: 0, masters: vec![], ports: vec![], parent: String::new(), now: 0, path_trace: false, slave_only: false, own_p1: 0, own_class: 0 },
+        w: World { own_clock: [0; 8], own_sdo: 0, own_domain: 0, masters: vec![], ports: vec![], parent: String::new(), now: 0, path_trace: false, slave_only: false, own_p1: 0, own_class: 0, init_line: String::new(), port_lines: vec![] },
         ops_in_scenario: 0,
         dead: false,
         on_obs: None,
